@@ -274,10 +274,14 @@ def chk_orbits(res, n):
         raise RuntimeError("reference partition generator disagrees with the known partition numbers")
     if len(exp) >= 2:
         res.nt += 1
+    limit = 4 * len(exp) + 8  # a generator that never stops must not hang the check
     try:
-        got = [list(o) for o in sim.orbits(n)]
+        got = [list(o) for o in itertools.islice(sim.orbits(n), limit)]
     except Exception as e:  # noqa: BLE001
         res.violation(f"C19|orbits|raises|{type(e).__name__}", f"orbits({n}) raised {e!r}", case)
+        return
+    if len(got) >= limit:
+        res.violation("C19|orbits|too-many", f"orbits({n}) yielded at least {limit} orbits, there are {len(exp)} partitions", case)
         return
     seen = Counter()
     for o in got:
@@ -719,6 +723,7 @@ def srt(S):
 # ---------------------------------------------------------------------------- clique checks
 def chk_defs(res, gc, S):
     """is_clique, c_0, c_1 against brute force; non-cliques must be rejected by c_0, c_1, grow, swap, search."""
+    S = frozenset(S)
     seed = srt(S)
     case = {"kind": "clique_defs", "g": gc.spec, "subset": seed}
     clique = is_clique_ref(gc, S)
@@ -1076,9 +1081,9 @@ def chk_resize(res, gc, S, lo, hi, sel, ref, only=None):
             res.violation(f"C19|resize|raises|{type(out[1]).__name__}", f"{desc()} raised {out[1]!r}", case)
             continue
         r = out[1]
-        if not isinstance(r, dict) or sorted(r.keys()) != list(range(lo, hi + 1)):
+        if not isinstance(r, dict) or set(r.keys()) != set(range(lo, hi + 1)):
             complete = False
-            res.violation("C19|resize|sizes", f"{desc()} returned sizes {sorted(r.keys()) if isinstance(r, dict) else r!r}, requested {list(range(lo, hi + 1))}", case)
+            res.violation("C19|resize|sizes", f"{desc()} returned sizes {list(r.keys()) if isinstance(r, dict) else r!r}, requested {list(range(lo, hi + 1))}", case)
             continue
         sets = {}
         for k, v in r.items():
@@ -1167,17 +1172,20 @@ def chk_sg_search(res, gc, subs, lo, hi, max_count, sel, only=None):
             continue
         dense, found = out[1]
         want = list(range(lo, hi + 1)) if subs else []
-        if not isinstance(dense, dict) or sorted(dense.keys()) != want:
-            res.violation("C19|sg.search|sizes", f"{desc()} returned sizes {sorted(dense.keys()) if isinstance(dense, dict) else dense!r}, requested {want}", case)
+        if not isinstance(dense, dict) or set(dense.keys()) != set(want):
+            res.violation("C19|sg.search|sizes", f"{desc()} returned sizes {list(dense.keys()) if isinstance(dense, dict) else dense!r}, requested {want}", case)
             continue
         for k, lst in dense.items():
+            if not isinstance(lst, list):
+                res.violation("C19|sg.search|not-a-list", f"{desc()}: size {k} holds {lst!r}", case)
+                continue
             nontriv = nontriv or len(lst) > 1
-            if not isinstance(lst, list) or not 1 <= len(lst) <= max_count:
+            if not 1 <= len(lst) <= max_count:
                 res.violation("C19|sg.search|max_count", f"{desc()}: size {k} holds {len(lst)} subgraphs, max_count = {max_count}", case)
             entries = []
             bad = False
             for t in lst:
-                T = as_nodes(gc, t[1]) if isinstance(t, tuple) and len(t) == 2 else None
+                T = as_nodes(gc, t[1]) if isinstance(t, tuple) and len(t) == 2 and isinstance(t[0], (int, float, np.integer, np.floating)) else None
                 if T is None or len(T) != k:
                     bad = True
                     res.violation("C19|sg.search|not-a-subgraph-of-size", f"{desc()}: size {k} holds {t!r}, not a duplicate-free list of {k} nodes of the graph", case)
